@@ -262,6 +262,40 @@ def run(F, tier, res):
                 else:
                     res.violate('STATUS', 'fn=main;exit-arg', 'main does not exit with the status computed by run_app', where=F.span_of_call(c))
     res.rule('C18.STATUS', nst, 8, 'Ok(..) return values of run_app (none a non-zero constant; one derived from ExitStatus::code) + main exits with it', discharged=okst)
+    # ---------- WAIT-CLOSED: when the reader has gone away delta waits for the child it feeds from (`let _ = cmd.wait()`) and exits 0. That
+    # wait returns only if the child can finish, i.e. if delta no longer holds the read end of the child's stdout: the handle must have been
+    # MOVED out of the Child (stdout.take(), or the field moved) into the reader that delta() consumes and drops - not borrowed from it
+    # (as_mut / as_ref / &mut): a borrowed pipe stays open inside the Child, the child blocks on a full pipe, and wait() never returns
+    nwc = okwc = 0
+    CHILD = 'std::process::Child'
+    for q in sorted(F.fn_bodies):
+        if q.startswith('<') and 'Drop' not in q:
+            pass
+        waits = [i for i, c in F.calls(q) if callee_of(c).endswith('process::Child::wait')]
+        if not waits:
+            continue
+        defs = F.local_defs(q)
+        for bi, blk in enumerate(F.blocks(q)):
+            if blk['cleanup']:
+                continue
+            for st in blk['s']:
+                if not (st[0] == 'assign' and st[2][0] in ('ref', 'rawptr')):
+                    continue
+                pl = st[2][2]
+                if not any(pr[0] == 'field' and pr[2] == CHILD and pr[3] == 'stdout' for pr in pl['p']):
+                    continue
+                nwc += 1
+                dl = st[1]['l']
+                # the call that receives this reference
+                users = [callee_of(c) for _, c in F.calls(q) if any((a.get('move') or a.get('copy') or {}).get('l') == dl for a in c['args'])]
+                if users and all(u.endswith(('::take', 'mem::take', 'mem::replace')) for u in users):
+                    okwc += 1
+                else:
+                    res.violate('WAIT-CLOSED', 'fn=%s;via=%s' % (q, (users or ['borrow'])[0].split('::')[-1]),
+                                'the child\'s stdout pipe is borrowed from the Child (%s) instead of being moved out of it: after the reader has gone away the read end stays open '
+                                'inside the Child, the child blocks on a full pipe and the wait() on the broken-pipe path never returns (delta hangs instead of exiting 0)'
+                                % (users or ['&mut'])[0].split('::')[-1], where=F.bodies[q]['mir']['span']['at'])
+    res.rule('C18.WAIT-CLOSED', nwc, 1, 'references to Child.stdout in functions that wait for the child: each is the receiver of Option::take (the handle leaves the Child)', discharged=okwc)
     # ---------- PAGER
     tp = [q for q in F.fn_bodies if q.endswith('OutputType::try_pager')]
     mk = [q for q in F.fn_bodies if q.endswith('_make_process_from_less_path')]
